@@ -824,6 +824,15 @@ func runW4C09(t *testing.T, job *Job, seed uint64, rp *Replay) RunOut {
 				fault = fmt.Sprintf("first %d bytes only", n)
 				ro.Faults["storage_first_bytes"]++
 			}
+			if r.Chance(0.06) {
+				// a file of a particular size (a long comment at its end): page, buffer and 64 KiB boundaries
+				target := []int{4096, 32768, 65535, 65536, 65537, 131072}[r.Intn(6)]
+				if pad := target - len(data) - 3; pad > 0 {
+					data = append(append(data, []byte("\n# ")...), append([]byte(strings.Repeat("x", pad-1)), '\n')...)
+					log = append(log, fmt.Sprintf("padded to %d bytes", len(data)))
+					ro.Faults["file_of_boundary_size"]++
+				}
+			}
 			contents = append(contents, data)
 			notes = append(notes, fmt.Sprintf("edits=%v fault=%q", log, fault))
 		}
